@@ -306,6 +306,68 @@ def main():
                                                   "site": {"oracle": "dict-constructor"}})
                 except Exception as ex:
                     out["oracle_bad"].append({"oracle": "dict-constructor:" + cname, "error": repr(ex), "site": {"oracle": "dict-constructor"}})
+    # ---- (B'') dict.get with defaults (also the very object that is stored); containers of Python-scalar leaves receiving
+    #      several dense cotangents before an indexed one ----
+    arr0 = onp.array([1.0, 2.0])
+    dflt = {"a": arr0, "b": 3.0}
+    getprogs = {
+        "get(k, same object as stored)": (lambda d: anp.sum(d.get("a", arr0) * 2.0) + d["b"], {"a": 2.0 * onp.ones(2), "b": 1.0}),
+        "get(k, other default)": (lambda d: anp.sum(d.get("a", onp.zeros(2)) * 2.0) + d["b"], {"a": 2.0 * onp.ones(2), "b": 1.0}),
+        "get(missing, default)": (lambda d: anp.sum(d.get("zz", arr0) * 2.0) + d["b"] * 4.0, {"a": onp.zeros(2), "b": 4.0}),
+        "get(k) without default": (lambda d: d.get("b") * 5.0 + anp.sum(d.get("a")), {"a": onp.ones(2), "b": 5.0}),
+        "get(k, None)": (lambda d: (d.get("b", None)) * 5.0, {"a": onp.zeros(2), "b": 5.0}),
+        "get(k, scalar equal to the stored scalar)": (lambda d: d.get("b", 3.0) * 7.0, {"a": onp.zeros(2), "b": 7.0}),
+    }
+    for gname, (fg, wantg) in getprogs.items():
+        out["oracle_n"] += 1
+        out["oracle_keys"].append("dict-get:" + gname)
+        dist("oracle:dict-get")
+        try:
+            gg = grad(fg)(dflt)
+            if not (set(gg) == set(wantg) and all(onp.all(onp.asarray(gg[k]) == wantg[k]) for k in wantg)) or float(make_vjp(fg)(dflt)[1]) != float(fg(dflt)):
+                out["oracle_bad"].append({"oracle": "dict-get:" + gname, "vjp": {k: onp.asarray(v).tolist() for k, v in gg.items()}, "site": {"oracle": "dict-get"}})
+        except Exception as ex:
+            out["oracle_bad"].append({"oracle": "dict-get:" + gname, "error": repr(ex), "site": {"oracle": "dict-get"}})
+    for i in range(cfg["n_oracle"]):
+        leaves = tuple(float(rng.randint(1, 3)) for _ in range(rng.randint(2, 3)))
+        cont = rng.choice([tuple, list])(leaves)
+        uses = [rng.choice(["dense+", "dense+", "rdense+", "index", "index", "slice"]) for _ in range(rng.randint(3, 5))]
+        wts = [float(rng.randint(1, 4)) for _ in uses]
+        kidx = [rng.randrange(len(leaves)) for _ in uses]
+
+        def fs(t, uses=uses, wts=wts, kidx=kidx):
+            tot = 0.0
+            for u, w, k in zip(uses, wts, kidx):
+                if u == "dense+":
+                    tot = tot + w * sum(e for e in (t + type(cont)([t[k]])))
+                elif u == "rdense+":
+                    tot = tot + w * sum(e for e in (type(cont)([t[k]]) + t))
+                elif u == "index":
+                    tot = tot + w * t[k] * t[k]
+                else:
+                    tot = tot + w * sum(e for e in t[k:])
+            return tot
+        want = [0.0] * len(leaves)
+        for u, w, k in zip(uses, wts, kidx):
+            if u in ("dense+", "rdense+"):
+                for j in range(len(leaves)):
+                    want[j] += w
+                want[k] += w
+            elif u == "index":
+                want[k] += 2.0 * w * leaves[k]
+            else:
+                for j in range(k, len(leaves)):
+                    want[j] += w
+        out["oracle_n"] += 1
+        out["oracle_keys"].append("scalar-leaf-accumulation:%s:%s" % (uses, kidx))
+        dist("oracle:scalar-leaf-accumulation")
+        try:
+            gs_ = grad(fs)(cont)
+            if type(gs_) is not type(cont) or [float(v) for v in gs_] != want:
+                out["oracle_bad"].append({"oracle": "scalar-leaf-accumulation", "uses": uses, "x": list(leaves), "vjp": [float(v) for v in gs_], "expected": want,
+                                          "site": {"oracle": "scalar-leaf-accumulation"}})
+        except Exception as ex:
+            out["oracle_bad"].append({"oracle": "scalar-leaf-accumulation", "uses": uses, "error": repr(ex), "site": {"oracle": "scalar-leaf-accumulation"}})
     # ---- (C) one container OBJECT differentiated, edited in place, differentiated again: the second gradient is that
     #      of the container as it is now (the same as for a freshly built equal container) ----
     def fresh(v):
